@@ -457,6 +457,20 @@ pub fn reject(quick: bool) -> Vec<Scenario> {
 
 pub fn mn(quick: bool) -> Vec<Scenario> {
     let mut v = vec![
+        // the automatic allocator asks for new workers while multi-node and single-node tasks wait
+        // and connected workers are free (same / different worker groups)
+        Scenario::new(
+            "mn-worker-query",
+            vec![w(1), w(1)],
+            vec![vec![sub(SubmitSpec::array(&[0], RqSpec::nodes(2))), sub(arr(&[0], 1))]],
+        )
+        .worker_query(),
+        Scenario::new(
+            "mn-worker-query-2groups",
+            vec![w(1).group("a"), w(1).group("b")],
+            vec![vec![sub(SubmitSpec::array(&[0], RqSpec::nodes(2))), sub(arr(&[0], 1))]],
+        )
+        .worker_query(),
         Scenario::new(
             "mn-2n",
             vec![w(1), w(1)],
